@@ -58,6 +58,7 @@ pub fn record_solver_run(agg: &mut Agg, sc: &Scenario, out: &Outcome, viol: &[Vi
     agg.max("explored", out.explored as u64);
     agg.add("cutoff_polls", out.polls as u64);
     agg.hit("fault:cutoff_fired", out.fired);
+    if sc.max_steps >= 2_000_000 && out.panic.as_ref().map_or(false, |p| p.contains("SIM-STEP-BOUND")) { agg.add("inconclusive:pop_budget_exhausted(large arm)", 1); }
     agg.hit("fault:cutoff_fired_but_exact_anyway", out.fired && out.is_exact);
     agg.hit("fault:width_jitter", matches!(sc.width, crate::wrap::WidthPlan::Jitter { .. }));
     agg.hit("fault:rub_slack", matches!(sc.table.rub, crate::table::Rub::Slack(_) | crate::table::Rub::Ragged(_)));
